@@ -493,6 +493,7 @@ def run(ctx, n_override=None):
         done += len(trees)
         bi += 1
     sums(ctx, rng, res)
+    exchange_lists(ctx, rng, res)
     return res
 
 
@@ -536,6 +537,51 @@ def sums(ctx, rng, res):
         if got is None or got[0] != 'num' or got[1] != ostrip(total):
             res.violations.append(dict(key='sum:register-total', desc='register total of %d postings is not the exact sum' % npost,
                                        case=dict(journal=open(path).read()[:20000]), observed=ri, required=str(ostrip(total))))
+
+
+def exchange_lists(ctx, rng, res):
+    """Report totals under `-X LIST` (a comma list of target commodities, and a single target): every component of the total
+    is either repriced into a target by an exact product with the one price on file, or - being a target itself, or having
+    no price - carried over unchanged; nothing is dropped, whatever the other components do."""
+    nj = ctx.scale(12, 80)
+    for j in range(nj):
+        priced = rng.sample(['AAA', 'BTC'], rng.choice([1, 2]))
+        prices = {c: F(rng.randrange(1, 99999), 10 ** rng.choice([0, 2, 3])) for c in priced}
+        held = ['$', 'EUR'] + priced + rng.sample(['CAD', 'XAU'], rng.choice([0, 1, 1, 2]))
+        lines = ['P 2019/12/31 00:00:00 %s $%s' % (c, ('%f' % float(v)).rstrip('0').rstrip('.')) for c, v in prices.items()]
+        # the price as ledger reads it: re-parse the decimal text exactly
+        prices = {c: F(l.split('$')[1]) for c, l in zip(prices, lines)}
+        total = {}
+        for i in range(rng.randrange(3, 14)):
+            c = rng.choice(held)
+            dec = rng.choice([0, 1, 2, 3])
+            q = F(rng.randrange(-9999, 9999), 10 ** dec)
+            if q == 0:
+                continue
+            lit = Lit(str(abs(q.numerator * 10 ** dec // q.denominator)), dec, (c, 'pre' if c == '$' else 'suf'))
+            lines += ['2020/01/%02d p%d' % (1 + i % 28, i), '    Assets:Sum    %s%s' % ('-' if q < 0 else '', lit.text()) if c != '$' else
+                      '    Assets:Sum    %s%s' % ('-' if q < 0 else '', lit.text()), '    Equity:Open', '']
+            total[c] = total.get(c, 0) + q
+        path = ctx.path('xl%d.dat' % (j % 4))
+        open(path, 'w').write('\n'.join(lines) + '\n')
+        for targets in (['$', 'EUR'], ['$'], ['EUR', '$']):
+            want = {}
+            for c, q in total.items():
+                if c in targets or c not in prices or '$' not in targets:
+                    want[c] = want.get(c, 0) + q
+                else:
+                    want['$'] = want.get('$', 0) + q * prices[c]
+            st, out, err = lib.run_ledger(['-f', path, 'reg', '^Assets:Sum', '-X', ','.join(targets), '--no-rounding', '--format', '%(verif_rational(display_total))\\n'])
+            rows = out.decode().strip().split('\n')
+            ri = canon_impl(rows[-1]) if rows and rows[-1] and st == 0 else 'E:Other'
+            got = denote(ri)
+            res.evaluations += 1
+            res.count('exchange-list:%d-targets' % len(targets))
+            res.nontrivial.add('xl%d:%s:%s' % (j, ','.join(targets), open(path).read()[:200]))
+            if got is None or got[0] != 'num' or got[1] != ostrip(want):
+                res.violations.append(dict(key='sum:exchange-list:%s' % ('component-dropped' if got and got[0] == 'num' and set(got[1]) < set(ostrip(want)) else 'wrong-total'),
+                                           desc='reg -X %s: the final total is %s, the exact repriced sum is %s' % (','.join(targets), ri, ostrip(want)),
+                                           case=dict(journal=open(path).read(), targets=targets), observed=ri, required=str(ostrip(want))))
 
 
 def search(ctx, broken):
